@@ -40,6 +40,23 @@ CLAIMS = {
               "symbolic matrix fresh unknowns with A X = I; action values at absorbing states are not constrained (the statement "
               "fixes only their state value); floats as reals"),
         ref='DESIGN.md section 4 C02'),
+    'C04': dict(
+        text=("LRTDP.plan_on is executed with symbolic rewards, a symbolic ADMISSIBLE heuristic (constrained only by h >= V*, V* being "
+              "fresh unknowns pinned by the Bellman optimality equations), a symbolic error margin and a nondeterministic trial "
+              "sampler, so every trial history within the bound is explored. On every returning path z3 proves: all initial states "
+              "labelled solved (or the trial budget was used up), touched values >= V*, absorbing states worth 0 in values and "
+              "initial value, policy on available actions, V(s0)-V*(s0) <= margin x expected steps of the returned greedy policy "
+              "(fresh linear system) and the policy's exactly evaluated return within that margin of optimal. A second harness "
+              "proves the inductive step from an ARBITRARY Bellman-monotone upper-bound value table and label set satisfying the "
+              "labelling invariant: one _bellman_update / _check_solved keeps values >= V*, keeps monotonicity, never removes a "
+              "label and re-establishes the invariant (covers histories of any length for monotone heuristics)."),
+        note=("4 goal-reaching skeletons (2-4 states, absorbing initial mass, two start states, discounted), <= 3 trials x 3 steps "
+              "(quick; 2 trials for the larger ones), randomize_action_order on/off; termination for every history is not claimed "
+              "(cut paths counted). The step invariant is inductive only under Bellman-monotone values (Bonet & Geffner's standing "
+              "assumption): for merely admissible heuristics the claim rests on the bounded full runs. Two defects found by this "
+              "check were repaired in /repo (absorbing initial state keeps heuristic value; returned policy at labelled-but-unstored "
+              "states)."),
+        ref='DESIGN.md section 4 C04'),
     'C05': dict(
         text=("AStarSearch.plan_on and BreadthFirstSearch.plan_on (incl. from_mdp, path reconstruction, policy construction) are "
               "executed on digraphs whose every edge cost is a symbolic real >= 0 and whose heuristic values are symbolic and "
